@@ -394,6 +394,17 @@ func init() {
 							}
 						}
 					}
+					// an exact alternative and a probe that differ in a part Compare ignores (build metadata)
+					if plain, suff := ignoredPartTemplates(eco); plain != "" {
+						for _, opp := range [][2]string{{"=", ">="}, {"=", "="}, {"<", "="}} {
+							for _, xy := range [][2]string{{plain, plain}, {suff, plain}, {plain, suff}} {
+								for _, p := range []string{plain, suff} {
+									out = append(out, &Config{ID: fmt.Sprintf("C02/or2/%s/%q/%s %s/ignored/%s|%s|%s", eco, sep, opp[0], opp[1], xy[0], xy[1], p), Pkg: zzhPkg, Func: "C02Or2",
+										Args: []ArgSpec{ArgStr(eco), ArgStr(opp[0]), ArgTmpl(xy[0]), ArgStr(sep), ArgStr(opp[1]), ArgTmpl(xy[1]), ArgTmpl(p)}})
+								}
+							}
+						}
+					}
 				}
 			}
 			return out
